@@ -803,7 +803,7 @@ func (j *judge) run(res *runResult) {
 			seenSeq[q]++
 		}
 		var bj *beforeRec
-		if len(befs) > 0 {
+		if len(befs) == 1 { // several tags: the request cannot be joined to one log entry (reported below)
 			bj = beforeByN[befs[0]]
 		}
 		var hj *handlerRec
@@ -990,6 +990,7 @@ func (j *judge) run(res *runResult) {
 	// succession histories: which operation kind was directly followed by which (only steps that were really
 	// attempted count, and only those during which a request reached the server - or a terminate without session)
 	if isSucc {
+		local := map[string]bool{}
 		for _, st := range res.steps {
 			r.Count("succession_steps", 1)
 			if st.Skipped {
@@ -1011,6 +1012,7 @@ func (j *judge) run(res *runResult) {
 			}
 			if alphabet := successionKinds(client); contains(alphabet, st.Prev) && contains(alphabet, st.Kind) {
 				j.succ[client][pair] = true
+				local[pair] = true
 			}
 			if st.Prev == "(start)" {
 				continue
@@ -1026,6 +1028,12 @@ func (j *judge) run(res *runResult) {
 			if !st.Live && client == clStream && st.SrvTo > st.SrvFrom {
 				r.Count("succession_steps_sending_while_session_terminated", 1)
 				r.SetAdd("kinds_sent_while_session_terminated", st.Kind)
+			}
+		}
+		if sp.failAt == 0 {
+			r.Count("succession_histories|"+client, 1)
+			if n := len(successionKinds(client)); len(local) == n*n {
+				r.Count("succession_histories_with_every_ordered_pair|"+client, 1)
 			}
 		}
 		for _, op := range res.ops {
@@ -1322,6 +1330,8 @@ func main() {
 	for _, cl := range clients {
 		n := len(successionKinds(cl))
 		r.Count("successions_observed|"+cl, int64(len(j.succ[cl])))
+		r.Require(r.Counter("succession_histories|"+cl) > 0 && r.Counter("succession_histories|"+cl) == r.Counter("succession_histories_with_every_ordered_pair|"+cl),
+			"%d of %d succession histories of the %s client executed every ordered pair of operation kinds", r.Counter("succession_histories_with_every_ordered_pair|"+cl), r.Counter("succession_histories|"+cl), cl)
 		r.Require(len(j.succ[cl]) == n*n, "only %d of the %d ordered pairs of operation kinds were executed in direct succession on a %s client", len(j.succ[cl]), n*n, cl)
 	}
 	r.Require(r.Counter("requests_judged_after_a_termination") > 0, "no request sent after a session termination was judged")
